@@ -231,6 +231,69 @@ def tokens_for(cmd, enums):
     return toks[:14]
 
 
+def long_lines_for(cmd, enums, cap=700):
+    """complete argument lines for commands with three or more fields: every subset of the argument groups
+    (positional value / option + value in each spelling / flag) in every order that keeps the positionals in
+    declaration order, plus the full line with one invalid value; deterministic, capped by a stride"""
+    if len(cmd.fields) < 3:
+        return []
+    groups = []  # (field index, kind, list of alternative token lists)
+    for i, f in enumerate(cmd.fields):
+        t = TYPES[f.ty]
+        if f.kind == "positional":
+            groups.append((i, "positional", [[t[0][0]]]))
+        elif f.kind == "option":
+            alts = []
+            if f.long:
+                alts.append(["--" + f.long, t[0][0]])
+            if f.short:
+                alts.append(["-" + f.short, t[0][0]])
+            groups.append((i, "option", alts))
+        else:
+            alts = []
+            if f.long:
+                alts.append(["--" + f.long])
+            if f.short:
+                alts.append(["-" + f.short])
+            groups.append((i, "flag", alts))
+    lines = []
+    n = len(groups)
+    for mask in range(1 << n):
+        chosen = [g for k, g in enumerate(groups) if mask >> k & 1]
+        for perm in itertools.permutations(chosen):
+            pos = [g[0] for g in perm if g[1] == "positional"]
+            if pos != sorted(pos):
+                continue
+            for alt in range(2):
+                line = []
+                for g in perm:
+                    a = g[2][min(alt, len(g[2]) - 1)]
+                    line += a
+                if line not in lines:
+                    lines.append(line)
+    # one invalid value in each value position of the full line
+    full = [g[2][0] for g in groups]
+    for k, g in enumerate(groups):
+        f = cmd.fields[g[0]]
+        bad = TYPES[f.ty][1]
+        if g[1] != "flag" and bad is not None:
+            line = []
+            for j, a in enumerate(full):
+                line += (a[:-1] + [bad]) if j == k else a
+            lines.append(line)
+    sub = []
+    if cmd.sub:
+        se = enums[cmd.sub.enum]
+        c0 = se.cmds[0]
+        subline = [c0.name] + [TYPES[f.ty][0][0] for f in c0.fields if f.kind == "positional"]
+        sub = [l + subline for l in lines[::3]]
+    lines = lines + sub
+    if len(lines) > cap:
+        step = len(lines) / float(cap)
+        lines = [lines[int(i * step)] for i in range(cap)]
+    return lines
+
+
 def rust_enum(e, enums):
     lt = "<'a>" if e.lifetime(enums) else ""
     out = []
@@ -573,6 +636,7 @@ embedded-io = "0.6.1"
                     "sub": None if not c.sub else {"field": c.sub.field, "enum": c.sub.enum, "optional": c.sub.optional},
                     "tuple": c.tuple_sub,
                     "tokens": (["--help", "-h"] if which == "c16" else []) + tokens_for(c, enums),
+                    "long_lines": long_lines_for(c, enums, 250 if which == "quick" else 700),
                 })
             decls.append(d)
         else:
